@@ -38,7 +38,7 @@ m = {
         {'name': 'coq-model+proofs', 'path': 'coq/', 'serves_properties': [c['property_id'] for c in checks], 'kind_free_text': 'Gallina spec + model + proofs per component, Properties_<id>.v holds the property theorems; Coq 8.16.1 kernel'},
         {'name': 'extracted-model drivers', 'path': 'ocaml/', 'serves_properties': [c['property_id'] for c in checks], 'kind_free_text': 'ExtrOcamlBasic extraction of model and spec, one OCaml driver per component'},
         {'name': 'differential harness', 'path': 'harness/', 'serves_properties': [c['property_id'] for c in checks], 'kind_free_text': 'C++ harness per component built from the current /repo tree with ASan+UBSan; lib/vf.py compares implementation, model and spec observation by observation, shrinks and classifies'},
-        {'name': 'table translator', 'path': 'gen/', 'serves_properties': [x for x in ['C03', 'C05', 'C06', 'C12', 'C16', 'C17', 'C18'] if x in [c['property_id'] for c in checks]], 'kind_free_text': 'translators (gen/tables.py, gen/tables_xml.py, gen/tables_callback.py, gen_seq/gen_stable in checks/) regenerate coq/*/Gen_*.v (constant tables, block sizes, overload families) from the source text on every run; the theorems over them are re-checked against what the code says now, a table that cannot be located uniquely raises TieBroken'},
+        {'name': 'table translator', 'path': 'gen/', 'serves_properties': [x for x in ['C02', 'C03', 'C05', 'C06', 'C12', 'C16', 'C17', 'C18'] if x in [c['property_id'] for c in checks]], 'kind_free_text': 'translators (gen/tables.py, gen/tables_xml.py, gen/tables_callback.py, gen_seq/gen_stable in checks/) regenerate coq/*/Gen_*.v (constant tables, block sizes, overload families) from the source text on every run; the theorems over them are re-checked against what the code says now, a table that cannot be located uniquely raises TieBroken'},
     ],
     'checks': checks,
     'not_applicable': na,
